@@ -76,7 +76,7 @@ Fixpoint lpoll (fuel : nat) (q : nat) (fs : lfs) (k : lcore) : option (lres * lc
     | TYield n t' => lpoll f q (mkLF en (LLYield n t') st) k
     | TLegReq tg e x t' => lpoll f q (mkLF en (LLRun (TReq tg e x t')) st) k   (* in a legacy task this IS the native request *)
     | TJoin _ t' | TAbortT _ t' | TAbortC _ t' => lpoll f q (mkLF en (LLRun t') st) k            (* outside the fragment *)
-    | TBoth _ _ _ _ _ _ t' | TBothL _ _ _ _ _ _ t' | TRace _ _ _ _ _ t' => lpoll f q (mkLF en (LLRun t') st) k
+    | TBoth _ _ _ _ _ _ t' | TBothL _ _ _ _ _ _ t' | TBothJ _ _ _ _ t' | TRace _ _ _ _ _ t' => lpoll f q (mkLF en (LLRun t') st) k
     | THost _ _ _ _ _ t' => lpoll f q (mkLF en (LLRun t') st) k
     end
   | LLReq sent tg v c x t' =>
